@@ -2,9 +2,11 @@ package main
 
 import (
 	"encoding/json"
+	"fmt"
 	"math/rand"
 	"net/http"
 	"strings"
+	"time"
 
 	sxg "github.com/WICG/webpackage/go/signedexchange"
 	"github.com/WICG/webpackage/go/signedexchange/version"
@@ -319,6 +321,8 @@ func init() { register("sxg-pol", sxgPol) }
 type polScn struct {
 	S struct {
 		Ver        string   `json:"ver"`
+		Win        string   `json:"win"`
+		Decoy      []string `json:"decoy"`
 		T          string   `json:"t"`
 		Life       int64    `json:"life"`
 		Method     string   `json:"method"`
@@ -348,6 +352,9 @@ func sxgScn(args []string) error {
 		s := q.S
 		sc := newScenario(r, version.Version(s.Ver))
 		sp := sc.sp
+		if s.Win == "present" {
+			sp.date = time.Now().Unix() - s.Life/2
+		}
 		sp.expires = sp.date + s.Life
 		sp.method = s.Method
 		sp.status = s.Status
@@ -424,13 +431,60 @@ func sxgScn(args []string) error {
 		case "junk":
 			e.SignatureHeaderValue = strings.Replace(e.SignatureHeaderValue, "integrity=\"", "integrity=\"x", 1)
 		}
+		if len(s.Decoy) == 2 && s.Decoy[0] != "none" {
+			sig := e.SignatureHeaderValue
+			ds, es := fmt.Sprintf("date=%d", sp.date), fmt.Sprintf("expires=%d", sp.expires)
+			d := sig
+			switch s.Decoy[0] {
+			case "overlong":
+				d = strings.Replace(sig, es, fmt.Sprintf("expires=%d", sp.date+604801), 1)
+			case "expired":
+				d = strings.Replace(strings.Replace(sig, ds, fmt.Sprintf("date=%d", sp.date-90000), 1), es, fmt.Sprintf("expires=%d", sp.date-80000), 1)
+			case "future":
+				d = strings.Replace(strings.Replace(sig, ds, fmt.Sprintf("date=%d", sp.expires+80000), 1), es, fmt.Sprintf("expires=%d", sp.expires+90000), 1)
+			case "otherorigin":
+				d = strings.Replace(sig, "validity-url=\"", "validity-url=\"https://decoy.example/v#", 1)
+			case "integrity":
+				d = strings.Replace(sig, "integrity=\"", "integrity=\"x", 1)
+			case "nodate":
+				d = strings.Replace(sig, ";"+ds, "", 1)
+			case "badsig":
+				i0 := strings.Index(sig, "sig=*") + 9
+				c := byte('A')
+				if sig[i0] == 'A' {
+					c = 'B'
+				}
+				d = sig[:i0] + string(c) + sig[i0+1:]
+			case "certsha":
+				d = strings.Replace(sig, "cert-sha256=*", "cert-sha256=*AAAA", 1)
+				if j := strings.Index(d, "cert-sha256=*AAAA"); j >= 0 {
+					d = d[:j+17] + d[j+21:]
+				}
+			case "unparsable-params":
+				d = "decoy;sig=*AAAA*;date=1;expires=2"
+			}
+			if s.Decoy[1] == "first" {
+				e.SignatureHeaderValue = d + ", " + sig
+			} else {
+				e.SignatureHeaderValue = sig + ", " + d
+			}
+		}
 		note := string(line)
 		if q.Ok {
 			note = "ABSTRACT-OK " + note
 		} else {
 			note = "ABSTRACT-REJECT " + note
 		}
-		ctx.emitVer(e, kc, sec, ns, signed, true, nil, false, false, note)
+		tm := time.Unix(sec, int64(ns))
+		switch s.T {
+		case "zero":
+			tm = time.Time{}
+		case "epoch":
+			tm = time.Unix(0, 0)
+		case "farfuture":
+			tm = time.Date(9999, 12, 31, 23, 59, 59, 999999999, time.UTC)
+		}
+		ctx.emitVerT(e, kc, tm, signed, true, nil, false, false, note)
 		return nil
 	})
 }
